@@ -598,6 +598,21 @@ func (r *Runner) apply(op Op) bool {
 		}
 		return true
 
+	case "touch": // fetch the page handle only (Tx.Page), contents are accessed by later operations
+		if r.tx == nil || r.txDirtyUnknown {
+			return false
+		}
+		c := r.filter(func(p *pgState, committed bool) bool { return committed && r.txPages[p.id] == nil })
+		if len(c) == 0 {
+			return false
+		}
+		id := pick(c, op.A)
+		if _, err := r.page(id); err != nil {
+			e.Fail("C03", "page-access", "Page(%d) failed: %v", id, err)
+		}
+		e.Probe("handle_fetched_before_use")
+		return true
+
 	case "readv":
 		if r.tx == nil || r.txDirtyUnknown {
 			return false
@@ -1084,6 +1099,7 @@ func (g *Gen) Next() Op {
 		{m.SetRoot, func() Op { return Op{K: "setroot", A: big() - 1<<17} }},
 		{m.Checkpoint, func() Op { return Op{K: "checkpoint"} }},
 		{m.ReadV, func() Op { return Op{K: "readv", A: big()} }},
+		{2 + m.Checkpoint/2, func() Op { return Op{K: "touch", A: big()} }},
 	}
 	tot := 0
 	for _, c := range choices {
